@@ -142,9 +142,7 @@ def build_records(insts, base, seed, start_id=0):
             if o['l'] != len(b):
                 excl['decoded length differs from GNU as (decoder property C01)'] += 1
                 continue
-            rec['affs'] = o['affs'] if o['affs'] else DUMMY
-            if not o['affs']:
-                rec['st'] = 'empty'
+            rec['affs'] = o['affs']          # may be empty: an instruction without architectural effect (shld r, r, 0)
         elif o['st'] == 'exc':
             rec['exc'] = o['exc']
         recs.append(rec)
